@@ -182,15 +182,13 @@ structure St where
 
 abbrev M := ExceptT String (StateM St)
 
-def modExp (t : Nat) (x e : Nat) : Nat := Id.run do
-  let mut r := 1 % t
-  let mut b := x % t
-  let mut k := e
-  for _ in [0:64] do
-    if k % 2 = 1 then r := r * b % t
-    b := b * b % t
-    k := k / 2
-  return r
+/-- square-and-multiply over the 64 bits of the exponent (`ring.ModExp`): `fuel` bits left, accumulator
+    `r`, current power `b`, remaining exponent `k` -/
+def modExpLoop (t : Nat) : Nat → Nat → Nat → Nat → Nat
+  | 0, r, _, _ => r
+  | fuel + 1, r, b, k => modExpLoop t fuel (if k % 2 = 1 then r * b % t else r) (b * b % t) (k / 2)
+
+def modExp (t : Nat) (x e : Nat) : Nat := modExpLoop t 64 (1 % t) (x % t) e
 
 def invMod (t x : Nat) : Nat := modExp t x (t - 2)
 
@@ -272,49 +270,81 @@ def mulThenAddConst (env : Env) (x : Opd) (c : List Int) (res : Opd) : M Opd := 
 
 /-! ### power basis -/
 
+/-- `if p.Value[n].Degree() == 2 { eval.Relinearize(p.Value[n], p.Value[n]) }` -/
+def relinIf2 (env : Env) (n : Nat) : M Unit := do
+  let o ← getP n
+  if o.deg == 2 then do
+    let o' ← relinOp env o
+    setP n o'
+  else pure ()
+
+/-- `if rescale { eval.Rescale(p.Value[n], p.Value[n]) }` -/
+def rescaleIf (env : Env) (r : Bool) (n : Nat) : M Unit :=
+  if r then do
+    let o ← getP n
+    let o' ← rescaleOp env o
+    setP n o'
+  else pure ()
+
+/-- `p.Value[n] = eval.MulNew / MulRelinNew(p.Value[a], p.Value[b])` -/
+def mulInto (env : Env) (name : String) (relin : Bool) (a b n : Nat) : M Unit := do
+  let oa ← getP a
+  let ob ← getP b
+  let o ← mulOp env name relin oa ob
+  setP n o
+
 mutual
 /-- `PowerBasis.GenPower(n, lazy, eval)` -/
 def genPowerTop (env : Env) : Nat → Nat → Bool → M Unit
   | 0, _, _ => throw "fuel"
   | fuel + 1, n, lazy => do
-    if !(← hasP n) then
+    let c ← hasP n
+    if c then pure ()
+    else do
       let r ← genPowerRec env fuel n lazy
-      if r then
-        let o ← getP n
-        setP n (← rescaleOp env o)
+      rescaleIf env r n
 
 /-- `PowerBasis.genPower(n, lazy, rescale, eval)`; returns `rescaleOut` -/
 def genPowerRec (env : Env) : Nat → Nat → Bool → M Bool
   | 0, _, _ => throw "fuel"
   | fuel + 1, n, lazy => do
-    if ← hasP n then return false
-    if n = 0 then throw "panic"                  -- SplitDegree(0) panics
-    let (a, b) := splitDegree n
-    let p2 := isPow2 n
-    let rA ← genPowerRec env fuel a (lazy && !p2)
-    let rB ← genPowerRec env fuel b (lazy && !p2)
-    if lazy then
-      if (← getP a).deg == 2 then setP a (← relinOp env (← getP a))
-      if (← getP b).deg == 2 then setP b (← relinOp env (← getP b))
-      if rA then setP a (← rescaleOp env (← getP a))
-      if rB then setP b (← rescaleOp env (← getP b))
-      setP n (← mulOp env "mulnew" false (← getP a) (← getP b))
-    else
-      if rA then setP a (← rescaleOp env (← getP a))
-      if rB then setP b (← rescaleOp env (← getP b))
-      setP n (← mulOp env "mulrelinnew" true (← getP a) (← getP b))
-    if env.cheb then
-      let c := if a ≥ b then a - b else b - a
-      let o ← getP n
-      setP n (← addCt env "add" false o o)
-      if c = 0 then
+    let c ← hasP n
+    if c then pure false
+    else if n = 0 then throw "panic"                  -- SplitDegree(0) panics
+    else do
+      let a := (splitDegree n).1
+      let b := (splitDegree n).2
+      let p2 := isPow2 n
+      let rA ← genPowerRec env fuel a (lazy && !p2)
+      let rB ← genPowerRec env fuel b (lazy && !p2)
+      (if lazy then do
+        relinIf2 env a
+        relinIf2 env b
+        rescaleIf env rA a
+        rescaleIf env rB b
+        mulInto env "mulnew" false a b n
+      else do
+        rescaleIf env rA a
+        rescaleIf env rB b
+        mulInto env "mulrelinnew" true a b n)
+      -- Chebyshev: C_n = 2·C_a·C_b − C_{|a−b|}
+      (if env.cheb then do
+        let c := if a ≥ b then a - b else b - a
         let o ← getP n
-        log s!"add({showOpd env o},c)"
-        setP n { o with val := o.val.map fun x => redV env (x - 1) }
-      else
-        genPowerTop env fuel c lazy
-        setP n (← addCt env "sub" true (← getP n) (← getP c))
-    return true
+        let o2 ← addCt env "add" false o o
+        setP n o2
+        (if c = 0 then do
+          let o ← getP n
+          log s!"add({showOpd env o},c)"
+          setP n { o with val := o.val.map fun x => redV env (x - 1) }
+        else do
+          genPowerTop env fuel c lazy
+          let on ← getP n
+          let oc ← getP c
+          let o3 ← addCt env "sub" true on oc
+          setP n o3)
+      else pure ())
+      pure true
 end
 
 /-! ### the simulated evaluation (levels and scales of the sub-polynomials) -/
@@ -337,7 +367,8 @@ def simGenPower (env : Env) : Nat → Nat → List (Nat × SimOpd) → List (Nat
   | fuel + 1, n, d =>
     if n < 2 then d
     else
-      let (a, b) := splitDegree n
+      let a := (splitDegree n).1
+      let b := (splitDegree n).2
       let d := simGenPower env fuel a d
       let d := simGenPower env fuel b d
       match d.find? (·.1 == a), d.find? (·.1 == b) with
@@ -394,9 +425,10 @@ def recursePS (env : Env) (pb : List (Nat × SimOpd)) :
       match pb.find? (·.1 == np) with
       | none => none
       | some (_, xpow) =>
-        let (cq, cr) := p.factorize env np
-        let (tLevelNew, tScaleNew) := giantLevelScale env p.lead targetLevel outScale xpow.scale
-        match recursePS env pb fuel logSplit tLevelNew cq tScaleNew with
+        let cq := (p.factorize env np).1
+        let cr := (p.factorize env np).2
+        let ls := giantLevelScale env p.lead targetLevel outScale xpow.scale
+        match recursePS env pb fuel logSplit ls.1 cq ls.2 with
         | none => none
         | some (bq, res) =>
           -- Rescale(res); res = MulNew(res, XPow)
@@ -439,7 +471,7 @@ def evalFromPowerBasis (env : Env) (mapping : Option (List (List Nat))) (targetL
     if env.even then addConst env res (coeffVec env mapping p.coeffs 0) else pure res
   else
     let res : Opd := { level := targetLevel, scale := targetScale, deg := maxCtDeg st.pb deg, val := zero }
-    let res ← if env.even then addConst env res (coeffVec env mapping p.coeffs 0) else pure res
+    let res ← (if env.even then addConst env res (coeffVec env mapping p.coeffs 0) else pure res)
     (List.range deg).foldlM (fun res i => do
       let key := deg - i
       if useIdx env.odd env.even key then
@@ -449,11 +481,11 @@ def evalFromPowerBasis (env : Env) (mapping : Option (List (List Nat))) (targetL
 
 /-- `EvaluateMonomial(a, b, xpow)`: `b = Rescale(Relin(b)) * xpow + a` -/
 def evalMonomial (env : Env) (a b xpow : Opd) : M Opd := do
-  let b ← if b.deg == 2 then relinOp env b else pure b
-  let b ← rescaleOp env b
-  let b ← mulOp env "mul" false b xpow
-  if env.t != 0 && a.scale != b.scale then throw "err"
-  addCt env "add" false b a
+  let b1 ← (if b.deg == 2 then relinOp env b else pure b)
+  let b2 ← rescaleOp env b1
+  let b3 ← mulOp env "mul" false b2 xpow
+  if env.t != 0 && a.scale != b3.scale then throw "err"
+  else addCt env "add" false b3 a
 
 /-- one pass of the giant-step loop over `(degree, value)` pairs (ascending position).  The
     `giantsteps` marks are computed from the degrees before the pass: two neighbours of equal degree
@@ -506,9 +538,18 @@ def simPowers (env : Env) (deg : Nat) (inLevel : Int) (inScale : Nat) : List (Na
 def finish (env : Env) (fin : List (Nat × Opd)) : M Opd :=
   match fin with
   | [(_, v)] => do
-    let v ← if v.deg == 2 then relinOp env v else pure v
+    let v ← (if v.deg == 2 then relinOp env v else pure v)
     rescaleOp env v
   | _ => throw "panic"
+
+/-- `EvaluatePatersonStockmeyerPolynomialVector`: baby steps (`babySteps[split-i-1] = EvaluateBabyStep(i)`),
+    giant steps, final relinearisation and rescaling -/
+def evalSubs (env : Env) (mapping : Option (List (List Nat))) (subs : List SubPoly) : M Opd := do
+  let bs ← subs.foldlM (fun bs sp => do
+    let v ← evalFromPowerBasis env mapping sp.level sp sp.scale
+    pure ((sp.degree, v) :: bs)) []
+  let fin ← giantLoop env (subs.length + 2) bs
+  finish env fin
 
 /-- `Evaluator.Evaluate` on the power basis of the state (which holds at least the input at index 1:
     a fresh basis for a ciphertext input, the caller's for `EvaluateFromPowerBasis`) -/
@@ -520,22 +561,15 @@ def evaluateFrom (env : Env) (polys : List (List Int)) (mapping : Option (List (
   -- a constant polynomial consumes no level: the encoding of its coefficient at the target scale
   if deg = 0 then
     evalFromPowerBasis env mapping inLevel { coeffs := polys, maxDeg := 0, lead := true } targetScale
-  else
-    -- depth check (`levelsConsumedPerRescaling = 1`, also in the scale-invariant mode)
-    if inLevel < depthCheck deg then throw "err"
+  -- depth check (`levelsConsumedPerRescaling = 1`, also in the scale-invariant mode)
+  else if inLevel < depthCheck deg then throw "err"
+  else do
     genPowers env deg lazy
-    let logSplit := optimalSplit (bitLen deg)
-    let spb := simPowers env deg inLevel x1.scale
     let p0 : SubPoly := { coeffs := polys, maxDeg := deg, lead := true }
-    match recursePS env spb (2 * deg + 8) logSplit (inLevel - simDepth env deg) p0 targetScale with
+    match recursePS env (simPowers env deg inLevel x1.scale) (2 * deg + 8) (optimalSplit (bitLen deg))
+        (inLevel - simDepth env deg) p0 targetScale with
     | none => throw "panic"
-    | some (subs, _) =>
-      -- baby steps: babySteps[split-i-1] = EvaluateBabyStep(i)
-      let bs ← subs.foldlM (fun bs sp => do
-        let v ← evalFromPowerBasis env mapping sp.level sp sp.scale
-        pure ((sp.degree, v) :: bs)) []
-      let fin ← giantLoop env (subs.length + 2) bs
-      finish env fin
+    | some r => evalSubs env mapping r.1
 
 /-- `Evaluator.Evaluate` on a ciphertext: a fresh power basis holding the input at index 1 -/
 def evaluate (env : Env) (polys : List (List Int)) (mapping : Option (List (List Nat)))
